@@ -23,6 +23,7 @@ const argSDL = `
 enum E { RED GREEN }
 scalar Any
 input Obj { x: Int y: [Int] z: Obj }
+directive @skip(if: Boolean!, d: Int = 7, e: E = RED) on FIELD | FRAGMENT_SPREAD | INLINE_FRAGMENT
 directive @dir(i: Int, d: Int = 7, l: [Int], o: Obj, a: Any, e: E = RED, fl: Float, id: ID, fls: [Float]) on FIELD | QUERY | FRAGMENT_SPREAD | INLINE_FRAGMENT | FRAGMENT_DEFINITION
 type Query {
   f(i: Int, d: Int = 7, l: [Int], o: Obj, a: Any, e: E = RED, fl: Float, id: ID, fls: [Float]): Int
@@ -50,6 +51,7 @@ const argSDL2 = `
 enum E { RED GREEN }
 scalar Any
 input Obj { x: Int y: [Int] z: Obj }
+directive @skip(if: Boolean!, d: Int = 8, e: E = GREEN) on FIELD | FRAGMENT_SPREAD | INLINE_FRAGMENT
 directive @dir(i: Int = 11, d: Int = 8, l: [Int], o: Obj, a: Any, e: E = GREEN, fl: Float, id: ID, fls: [Float]) on FIELD | QUERY | FRAGMENT_SPREAD | INLINE_FRAGMENT | FRAGMENT_DEFINITION
 type Query {
   f(i: Int = 11, d: Int = 8, l: [Int], o: Obj, a: Any, e: E = GREEN, fl: Float, id: ID, fls: [Float]): Int
@@ -223,7 +225,7 @@ func argRows(c *core.Ctx, devs string, schema, first *ast.Schema, bigOpen bool) 
 			nontrivial++
 		}
 		// the directive stands at every executable location that takes one, twice on spreads of the same fragment
-		q := "query($p: Int, $q: Int = 3, $n: Int = null, $e: [Int] = []) @dir" + argText + " { f" + argText + " @dir" + argText + " g(u1: $p, u2: $q, u3: $n, u4: $e) ...F @dir" + argText +
+		q := "query($p: Int, $q: Int = 3, $n: Int = null, $e: [Int] = []) @dir" + argText + " { f" + argText + " @dir" + argText + " g(u1: $p, u2: $q, u3: $n, u4: $e) @skip(if: false) ...F @dir" + argText +
 			" ... on Query @dir" + argText + " { __typename } ...F @dir" + argText + " } fragment F on Query @dir" + argText + " { __typename }"
 		big := len(ac.Use) > 0 && (hasKind(ac.Use[0], "bigint") || hasKind(ac.Use[0], "bigfloat"))
 		// one parsed and validated document per text, shared by all rows that differ only in the supplied
@@ -292,6 +294,36 @@ func argRows(c *core.Ctx, devs string, schema, first *ast.Schema, bigOpen bool) 
 		}
 		if fd := doc.Fragments.ForName("F"); fd != nil {
 			at("on the fragment definition", fd.Directives)
+		}
+		// the schema's OWN declaration of a specified directive (@skip with two more, defaulted arguments) is the one
+		// in force: its map holds the literal and the defaults the specification gives for d and e
+		if ac.Arg != "d" && ac.Arg != "e" && len(op0.SelectionSet) >= 2 {
+			if gf, ok := op0.SelectionSet[1].(*ast.Field); ok && len(gf.Directives) == 1 {
+				m, crash := argMapOf(func() map[string]interface{} { return gf.Directives[0].ArgumentMap(coerced) })
+				what := ""
+				if crash != "" {
+					what = crash
+				} else {
+					if v, ok := m["if"].(bool); !ok || v {
+						what = fmt.Sprintf("argument \"if\" = %v, expected false", m["if"])
+					}
+					for _, e := range ac.All {
+						if e.Arg != "d" && e.Arg != "e" {
+							continue
+						}
+						got, present := m[e.Arg]
+						if present != e.Present || (present && !jvEqual(jvNorm(e.Val), jvNorm(fromGo(got)))) {
+							what = fmt.Sprintf("argument %q = %v (present=%v), expected %s", e.Arg, got, present, e.Val)
+						}
+					}
+					if len(m) != 3 {
+						what = fmt.Sprintf("map %v has %d entries, expected if, d and e", m, len(m))
+					}
+				}
+				if what != "" {
+					c.Violation(fmt.Sprintf("Directive.ArgumentMap of the redeclared @skip(if: false) on %s: %s", q, what), map[string]any{"query": q, "what": what})
+				}
+			}
 		}
 		for name, fn := range targets {
 			m, crash := argMapOf(fn)
